@@ -19,6 +19,7 @@ Model and C must agree on tree-or-error; a difference in the error CODE only is 
 the harness is reported as a disagreement of kind 'crash'."""
 import base64
 import hashlib
+import os
 import re
 import sys
 
@@ -65,6 +66,38 @@ DATA_CONTENTS = [VCARD, VCARD.replace(b"\n", b"\r\n"), b"\n", b"\n\n", b"x", b"<
 def syncml_doc(ver, body, decl=b'<?xml version="1.0"?>', ns=True):
     return decl + SYNCML[ver] + b'<SyncML' + (b' xmlns="' + SYNCML_NS[ver] + b'"' if ns else b"") + b'><SyncHdr><VerDTD>' + ver.encode() + \
         b'</VerDTD></SyncHdr><SyncBody>' + body + b'</SyncBody></SyncML>'
+
+
+LF_PROBE = (b'<?xml version="1.0"?><SyncML><SyncBody><Add><CmdID>1</CmdID><Meta><Type xmlns="syncml:metinf">text/x-vcard</Type></Meta>'
+            b'<Item><Data>A&#13;&#10;</Data></Item></Add></SyncBody></SyncML>')
+
+
+def lf_hack_before_fix(HT):
+    """which characters callback the C under test has: True = before props/C02/LF-hack-fix.patch (a lone LF event gets a
+    CR even when the CR came just before: "A&#13;&#10;" gives A CR CR LF), False = fixed.  The model has both
+    (Model/XmlFront.v / Model/XmlFrontLfOld.v); the drivers take the old one on lines that start with LFOLD."""
+    a, _ = common.run_lines(HT, [LF_PROBE.hex()], shards=1)
+    p = split_answer(a[0])
+    if p is None or "410d" not in p[2]:
+        raise RuntimeError("LF-hack probe: unexpected answer %r" % (a[0],))
+    return "410d0d0a" in p[2]
+
+
+CRLF_CONTENTS = [b"BEGIN:VCARD&#13;&#10;N:a&#13;&#10;END:VCARD&#13;&#10;", b"&#13;&#10;", b"a&#13;&#10;b", b"a&#13;\nb", b"&#13;", b"&#10;&#13;&#10;",
+                 b"<![CDATA[x]]>&#13;&#10;tail&#13;&#10;", b"a&#13;&#13;&#10;", b"a\n&#13;&#10;", b"a&#13;<x/>&#10;", b"<![CDATA[a\r]]>&#10;"]
+
+
+def crlf_docs():
+    """source documents that write the CR of a line end (&#13;&#10;: Expat delivers CR and LF as separate events) in
+    vCard / vCalendar / text/clear / untyped <Data> — the LF-hack defect and its fix"""
+    out = []
+    for ty in (b"text/x-vcard", b"text/x-vcalendar", b"text/directory;profile=vCard", b"text/clear", b"text/plain", None):
+        for cmd in (b"Add", b"Replace", b"Results"):
+            for content in CRLF_CONTENTS:
+                meta = (b"<Meta><Type xmlns='syncml:metinf'>" + ty + b"</Type></Meta>") if ty is not None else b""
+                body = b"<%s><CmdID>1</CmdID>%s<Item><Data>%s</Data></Item></%s>" % (cmd, meta, content, cmd)
+                out.append(("crlf", syncml_doc("1.2" if cmd != b"Results" else "1.1", body)))
+    return out
 
 
 def syncml_data_docs(rng, quick):
@@ -329,6 +362,7 @@ def cases(seed, quick):
     out += [("tables", d[2]) for d in tdocs]
     rng = common.Rng(seed, 7103)
     out += syncml_data_docs(rng, quick)
+    out += crlf_docs()
     out += embedded_docs(rng, quick)
     out += binary_docs(rng, quick)
     out += deep_docs(rng, quick)
@@ -392,6 +426,8 @@ def features(ev, t):
 def correspond(seed=1, quick=True, extra_cases=None, only_extra=False, strict_codes=False):
     H = common.build_harness("xmlfront_harness")
     D = common.build_driver("XmlFront")
+    lf_old = lf_hack_before_fix(H)
+    LF = "LFOLD " if lf_old else ""
     cs = [] if only_extra else cases(seed, quick)
     cs += list(extra_cases or [])
     # de-duplicate by content (keep the first kind)
@@ -403,7 +439,8 @@ def correspond(seed=1, quick=True, extra_cases=None, only_extra=False, strict_co
             uniq.append((k, d))
     cs = uniq
     disagreements, soft, crashes_out = [], [], []
-    dist = {"kinds": {}, "c_verdicts": {}, "features": {}, "expat_refused": 0, "nested_documents": 0, "rounds": 0, "sizes": {"max": 0, "total": 0}}
+    dist = {"lf_hack_of_the_c": "before the fix (CR CR LF): model Model/XmlFrontLfOld.v" if lf_old else "fixed: model Model/XmlFront.v",
+            "kinds": {}, "c_verdicts": {}, "features": {}, "expat_refused": 0, "nested_documents": 0, "rounds": 0, "sizes": {"max": 0, "total": 0}}
     c_answer = {}                 # doc hex -> tree part of the C's answer
     evaluations = 0
     samples = []
@@ -441,7 +478,7 @@ def correspond(seed=1, quick=True, extra_cases=None, only_extra=False, strict_co
             for i in pending:
                 ev, st, _ = parsed[i]
                 s = subs[i]
-                lines.append("%s %s %d%s %s" % (hexes[i], st, len(s), "".join(" %s %s" % (h, a) for h, a in s.items()), ev))
+                lines.append(LF + "%s %s %d%s %s" % (hexes[i], st, len(s), "".join(" %s %s" % (h, a) for h, a in s.items()), ev))
             mo, mcr = common.run_lines(D, lines, shards=min(common.NPROC, max(1, len(lines) // 8)))
             need = {}
             nxt = []
@@ -520,7 +557,7 @@ def correspond(seed=1, quick=True, extra_cases=None, only_extra=False, strict_co
 # ----------------------------------------------------------------------------------------------
 
 OPTION_TUPLES = [(v, kw, st, an) for v in (0, 1, 2, 3) for kw in (0, 1) for st in (0, 1) for an in (0, 1)]
-FULL_KINDS = ("corpus", "syncml-data", "embedded", "embedded-deep", "binary", "binary-deep", "deep", "deep-after-embedded", "wide", "entities", "tables")
+FULL_KINDS = ("corpus", "syncml-data", "crlf", "embedded", "embedded-deep", "binary", "binary-deep", "deep", "deep-after-embedded", "wide", "entities", "tables")
 
 
 def conv_cases(seed, quick):
@@ -549,6 +586,8 @@ def correspond_conv(seed=1, quick=True, extra_cases=None, only_extra=False, stri
     H = common.build_harness("c02c_harness")
     HT = common.build_harness("xmlfront_harness")
     D = common.build_driver("C02c")
+    lf_old = lf_hack_before_fix(HT)
+    LF = "LFOLD " if lf_old else ""
     cs = [] if only_extra else conv_cases(seed, quick)
     cs += list(extra_cases or [])
     seen, uniq = set(), []
@@ -561,7 +600,8 @@ def correspond_conv(seed=1, quick=True, extra_cases=None, only_extra=False, stri
     lines = ["%s %d %d %d %d" % ((d.hex() if d else "-",) + t) for _, d, t in cs]
     ans, crashes = common.run_lines(H, lines, shards=min(common.NPROC, max(1, len(lines) // 4)))
     disagreements, soft, samples = [], [], []
-    dist = {"kinds": {}, "c_verdicts": {}, "options": {}, "expat_refused": 0, "nested_documents": 0, "wbxml_bytes": 0}
+    dist = {"lf_hack_of_the_c": "before the fix (CR CR LF): model Model/XmlFrontLfOld.v" if lf_old else "fixed: model Model/XmlFront.v",
+            "kinds": {}, "c_verdicts": {}, "options": {}, "expat_refused": 0, "nested_documents": 0, "wbxml_bytes": 0}
     for c in crashes:
         lo, hi = c["range"]
         for i in range(lo, hi):
@@ -585,7 +625,7 @@ def correspond_conv(seed=1, quick=True, extra_cases=None, only_extra=False, stri
         for i in pending:
             ev, st, _ = parsed[i]
             sb = subs[i]
-            ml.append("%s %s %d %d %d %d %d%s %s" % ((lines[i].split(" ")[0], st) + cs[i][2] + (len(sb), "".join(" %s %s" % (h, a) for h, a in sb.items()), ev)))
+            ml.append(LF + "%s %s %d %d %d %d %d%s %s" % ((lines[i].split(" ")[0], st) + cs[i][2] + (len(sb), "".join(" %s %s" % (h, a) for h, a in sb.items()), ev)))
         mo, _ = common.run_lines(D, ml, shards=min(common.NPROC, max(1, len(ml) // 8)))
         need, nxt = {}, []
         for i, o in zip(pending, mo):
@@ -773,11 +813,79 @@ def correspond_replay(seed=1, quick=True):
     H = common.build_harness("xmlfront_replay")
     HT = common.build_harness("xmlfront_harness")
     D = common.build_driver("XmlFront")
+    lf_old = lf_hack_before_fix(HT)
+    LF = "LFOLD " if lf_old else ""
     cs = replay_cases(seed, quick)
+    # round 5 (C02f_text_split_invariant): the same list with its character-data events delivered in random non-empty
+    # pieces.  Base lists: the random lists above, the event logs of real documents, vCard texts in <Data>.
+    # kind "split": no piece is a lone LF -> the C must end in the same state as for the unsplit list;
+    # kind "split-lf": pieces that are a lone LF on purpose -> only C == model (the pieces are visible: LF -> CR LF).
+    rng = common.Rng(seed, 7302)
+    base = [(k, evs) for k, evs in cs if k == "random"]
+    docs = cases(seed, True)
+    dh = [d.hex() if d else "-" for _, d in docs]
+    da, _ = common.run_lines(HT, dh, shards=min(common.NPROC, max(1, len(dh) // 4)))
+    emb_hex = ("446576496e66", "4d676d7454726565")
+    logs = []
+    for (k, d), a in zip(docs, da):
+        p = split_answer(a)
+        if p is None or not p[2].startswith("T OK ") or any(h in p[0] for h in emb_hex):
+            continue
+        toks = p[0].split(" ")
+        if len(toks) > 4000:
+            continue
+        logs.append(("log:" + k.split("(")[0], _log_events(toks)))
+    for i in range(len(logs) - 1, 0, -1):
+        j = rng.below(i + 1)
+        logs[i], logs[j] = logs[j], logs[i]
+    base += logs[:(200 if quick else 1500)]
+    vc = [b"BEGIN:VCARD\nVERSION:2.1\nN:a;b\nEND:VCARD\n", b"\n", b"\n\n", b"a\nb", b"x", b"\r\n", b"text\n",
+          b"BEGIN:VCARD\r\nN:a\r\nEND:VCARD\r\n", b"a\r\r\nb", b"\r\n\r\n", b"a\n\r\nb\r"]
+    for mt in (b"text/x-vcard", b"text/x-vcalendar", b"text/clear", b"text/directory;profile=vCard", b"application/vnd.syncml-devinf+xml", None):
+        for cmd in (b"Add", b"Replace", b"Put"):
+            for txt in vc:
+                for cdata in (False, True):
+                    evs = [ev_start(b"SyncML"), ev_start(cmd)]
+                    if mt is not None:
+                        evs += [ev_start(b"Meta"), ev_start(b"Type"), ev_chars(mt), ev_end(b"Type"), ev_end(b"Meta")]
+                    evs += [ev_start(b"Item"), ev_start(b"Data")] + (["["] if cdata else []) + [ev_chars(txt)] + (["]"] if cdata else [])
+                    evs += [ev_end(b"Data"), ev_end(b"Item"), ev_end(cmd), ev_end(b"SyncML")]
+                    base.append(("vcard", evs))
+    split_pairs = []                                       # (index of the base list, index of the split list, lone LF allowed)
+    for k, evs in base:
+        if not any(e.startswith("C ") and len(e) > 4 for e in evs):
+            continue
+        bi = len(cs)
+        cs.append(("base:" + k, evs))
+        for lf in (False, True, "crlf"):
+            for _ in range(1 if quick else 3):
+                sp = _split_texts(evs, rng, lf)
+                if sp is not None:
+                    split_pairs.append((bi, len(cs), lf))
+                    cs.append(({False: "split:", True: "split-lf:", "crlf": "split-crlf:"}[lf] + k, sp))
+    # the LF-hack fix: "...CR" then LF as two events (what Expat delivers for &#13;&#10;), and CR LF in one event
+    for mt in (b"text/x-vcard", b"text/x-vcalendar", b"text/clear", None):
+        for pieces in ([b"BEGIN:VCARD", b"\r", b"\n"], [b"a\r", b"\n", b"b\r", b"\n"], [b"\r", b"\n"], [b"\r\n"], [b"a\r\n"], [b"a", b"\n"],
+                       [b"\n", b"\r", b"\n"], [b"a\r", b"\r", b"\n"]):
+            for cdata in (False, True):
+                evs = [ev_start(b"SyncML"), ev_start(b"Add")]
+                if mt is not None:
+                    evs += [ev_start(b"Meta"), ev_start(b"Type"), ev_chars(mt), ev_end(b"Type"), ev_end(b"Meta")]
+                evs += [ev_start(b"Item"), ev_start(b"Data")] + (["["] if cdata else []) + [ev_chars(x) for x in pieces] + (["]"] if cdata else [])
+                evs += [ev_end(b"Data"), ev_end(b"Item"), ev_end(b"Add"), ev_end(b"SyncML")]
+                cs.append(("crlf", evs))
+    # the same inside a binary-flagged element whose first child is a CDATA section (the cached path of the test)
+    for pieces in ([b"YQ==\r", b"\n"], [b"\r", b"\n", b"YQ=="]):
+        head = [ev_start(b"AirSync:|Sync"), ev_start(b"AirSync:|Replace"), ev_start(b"AirSync:|Item"), ev_start(b"AirSync:|Data"), "[", ev_chars(b"x"), "]"]
+        cs.append(("crlf", head + [ev_chars(x) for x in pieces] + [ev_end(b"AirSync:|Data"), ev_end(b"AirSync:|Item"), ev_end(b"AirSync:|Replace"), ev_end(b"AirSync:|Sync")]))
+        cs.append(("crlf", head + [ev_chars(x) for x in pieces]))        # not flushed: the cached octets are compared
     lines = [" ".join(evs) for _, evs in cs]
     ans, crashes = common.run_lines(H, lines, shards=min(common.NPROC, max(1, len(lines) // 4)))
     disagreements, samples = [], []
-    dist = {"kinds": {}, "errors": {}, "sticky_checked": 0, "events": 0}
+    dist = {"lf_hack_of_the_c": "before the fix (CR CR LF): model Model/XmlFrontLfOld.v" if lf_old else "fixed: model Model/XmlFront.v",
+            "kinds": {}, "errors": {}, "sticky_checked": 0, "events": 0, "split": {"pairs": 0, "pieces": 0, "same_as_unsplit": 0,
+                                                                                   "lone_lf_pairs": 0, "lone_lf_differs": 0,
+                                                                                   "lf_after_cr_pairs": 0, "lf_after_cr_differs": 0}}
     for c in crashes:
         lo, hi = c["range"]
         for i in range(lo, hi):
@@ -795,7 +903,7 @@ def correspond_replay(seed=1, quick=True):
     for rnd in range(MAX_ROUNDS):
         if not pending:
             break
-        ml = ["R %d%s %s" % (len(subs[i]), "".join(" %s %s" % (h, a) for h, a in subs[i].items()), lines[i]) for i in pending]
+        ml = [LF + "R %d%s %s" % (len(subs[i]), "".join(" %s %s" % (h, a) for h, a in subs[i].items()), lines[i]) for i in pending]
         mo, _ = common.run_lines(D, ml, shards=min(common.NPROC, max(1, len(ml) // 8)))
         need, nxt = {}, []
         for i, o in zip(pending, mo):
@@ -836,7 +944,103 @@ def correspond_replay(seed=1, quick=True):
                                   "what": "the C changed its state after an error was recorded (strict sticky-error oracle)"})
         if q != m:
             disagreements.append({"kind": "replay:" + k, "doc_hex": "", "events": lines[i][:3000], "c": q[:1500], "model": m[:1500]})
+    for bi, si, lf in split_pairs:
+        if ans[bi] is None or ans[si] is None:
+            continue
+        qb = ans[bi].partition(" | STICKY ")[0]
+        qs = ans[si].partition(" | STICKY ")[0]
+        npieces = sum(1 for e in cs[si][1] if e.startswith("C ")) - sum(1 for e in cs[bi][1] if e.startswith("C "))
+        if lf == "crlf":
+            # only LFs that follow a CR are cut out: with the fix the C must end in the same state (C02f_lone_lf_fixed);
+            # before the fix it does not (the defect), which is counted, not reported
+            dist["split"]["lf_after_cr_pairs"] += 1
+            if qb != qs:
+                dist["split"]["lf_after_cr_differs"] += 1
+                if not lf_old:
+                    disagreements.append({"kind": "split-crlf:" + cs[si][0], "doc_hex": "", "events": lines[si][:3000], "c": qs[:1500], "model": qb[:1500],
+                                          "what": "CR then LF as two events is not the same as CR LF in one (model column: the C on the unsplit list)"})
+            continue
+        if lf:
+            dist["split"]["lone_lf_pairs"] += 1
+            if qb != qs:
+                dist["split"]["lone_lf_differs"] += 1
+            continue
+        dist["split"]["pairs"] += 1
+        dist["split"]["pieces"] += npieces
+        if qb == qs:
+            dist["split"]["same_as_unsplit"] += 1
+        else:
+            disagreements.append({"kind": "split:" + cs[si][0], "doc_hex": "", "events": lines[si][:3000], "c": qs[:1500], "model": qb[:1500],
+                                  "what": "the C ends in another state when a text is delivered in pieces (model column: the C on the unsplit list)"})
     return {"evaluations": evaluations, "disagreements": disagreements, "samples": samples, "distribution": dist}
+
+
+def _log_events(toks):
+    """the event log of the harness (one flat token list) cut into events"""
+    out, i = [], 0
+    while i < len(toks):
+        t = toks[i]
+        if t == "X":
+            n = 3
+        elif t == "D":
+            n = 4
+        elif t == "S":
+            n = 4 + 2 * int(toks[i + 3])
+        elif t == "E":
+            n = 3
+        elif t == "C":
+            n = 2
+        elif t in ("[", "]"):
+            n = 1
+        elif t == "P":
+            n = 3
+        else:
+            raise ValueError("event log token %r" % t)
+        out.append(" ".join(toks[i:i + n]))
+        i += n
+    return out
+
+
+def _split_texts(evs, rng, lone_lf):
+    """every character-data event of two octets or more cut into random non-empty pieces; lone_lf: an LF is cut out as a
+    piece of its own wherever there is one (else no piece is exactly one LF).  None when nothing could be cut."""
+    out, cut = [], False
+    for e in evs:
+        if not (e.startswith("C ") and len(e) > 4):
+            out.append(e)
+            continue
+        b = bytes.fromhex(e[2:])
+        pieces, cur = [], b""
+        i = 0
+        while i < len(b):
+            cur += b[i:i + 1]
+            i += 1
+            if lone_lf == "crlf":
+                cut_here = i < len(b) and ((b[i:i + 1] == b"\n" and cur.endswith(b"\r")) or (cur == b"\n" and len(pieces) > 0 and pieces[-1].endswith(b"\r")))
+            else:
+                cut_here = i < len(b) and (rng.chance(1, 3) or (lone_lf and (b[i:i + 1] == b"\n" or cur == b"\n")))
+            if cut_here:
+                pieces.append(cur)
+                cur = b""
+        pieces.append(cur)
+        if not lone_lf:
+            # join a lone LF with a neighbour
+            j = 0
+            while j < len(pieces):
+                if pieces[j] == b"\n" and len(pieces) > 1:
+                    if j + 1 < len(pieces):
+                        pieces[j:j + 2] = [pieces[j] + pieces[j + 1]]
+                    else:
+                        pieces[j - 1:j + 1] = [pieces[j - 1] + pieces[j]]
+                        j -= 1
+                else:
+                    j += 1
+        elif lone_lf != "crlf" and not any(x == b"\n" for x in pieces):
+            pieces = [b]
+        if len(pieces) > 1:
+            cut = True
+        out += [ev_chars(x) for x in pieces]
+    return out if cut else None
 
 
 def correspond_inverse(seed=1, quick=True):
@@ -851,12 +1055,14 @@ def correspond_inverse(seed=1, quick=True):
     hexes = [d.hex() if d else "-" for _, d in cs]
     ans, _ = common.run_lines(HT, hexes, shards=min(common.NPROC, max(1, len(hexes) // 4)))
     trees = {}
+    sources = []                                      # (kind, document, event log, tree body) of every accepted document
     for (k, d), a in zip(cs, ans):
         p = split_answer(a)
         if p is None or not p[2].startswith("T OK ") or "!" in p[2]:
             continue
         body = p[2][5:].split(" ", 1)[1]              # drop the charset: "<lang> <n> node*"
         trees.setdefault(body, k)
+        sources.append((k, d, p[0], body))
     bodies = list(trees)
     mo, _ = common.run_lines(D, ["V " + b for b in bodies], shards=min(common.NPROC, max(1, len(bodies) // 8)))
     todo = [(b, o[6:].strip()) for b, o in zip(bodies, mo) if o is not None and o.startswith("EVS 1")]
@@ -885,7 +1091,52 @@ def correspond_inverse(seed=1, quick=True):
         if q[1] != "0" or got != b:
             disagreements.append({"kind": "inverse:" + k, "doc_hex": "", "events": ev[:3000], "c": a[:1500], "model": b[:1500],
                                   "what": "the C callbacks fed with events_of(tree) did not rebuild the tree"})
-    return {"evaluations": len(todo), "disagreements": disagreements, "samples": [{"tree": b[:200], "events": ev[:200]} for b, ev in todo[:6]],
+    # Goal 2 of round 5: the predicate on the SOURCE documents.  evs_clause (extracted, Model/XmlFrontCanonEvents.v) on
+    # the events Expat delivered for each accepted document: which fraction is canonical, which clause excludes the rest;
+    # and the theorem C02f_image_canonical against the C: no clause violated => the C's tree satisfies root_canon.
+    ko, _ = common.run_lines(D, ["K " + ev for _, _, ev, _ in sources], shards=min(common.NPROC, max(1, len(sources) // 8)))
+    canon_of = {b: (o is not None and o.startswith("EVS 1")) for b, o in zip(bodies, mo)}
+    emb_bodies = [b for b in bodies if " R " in (" " + b)]
+    wo, _ = common.run_lines(D, ["W " + b for b in emb_bodies], shards=1)
+    canon_all_of = {b: (o is not None and o.startswith("W 1")) for b, o in zip(emb_bodies, wo)}
+    corpus_name = {}
+    for f in convcases.corpus_xml():
+        corpus_name.setdefault(hashlib.sha256(open(f, "rb").read()).digest(), os.path.relpath(f, common.REPO) if f.startswith(common.REPO) else f)
+    src = {"accepted_documents": len(sources), "evs_canon": 0, "evs_canon_modulo_embedded": 0, "excluded_by_clause": {},
+           "excluded_by_kind": {}, "canon_by_kind": {}, "excluded_documents": [], "clause_fired_but_tree_canonical": 0,
+           "with_added_cdata": 0, "with_embedded": 0}
+    for (k, d, ev, b), o in zip(sources, ko):
+        kk = k.split("(")[0]
+        if o is None or not o.startswith("K "):
+            disagreements.append({"kind": "clause-driver:" + k, "doc_hex": d.hex()[:2000], "events": ev[:1500], "c": "", "model": str(o)})
+            continue
+        k_all, k_none = (int(x) for x in o.split()[1:3])
+        has_emb = " R " in (" " + b)
+        if has_emb:
+            src["with_embedded"] += 1
+        if k_all == 0:
+            src["evs_canon_modulo_embedded"] += 1
+            if has_emb and not canon_all_of.get(b, False):
+                disagreements.append({"kind": "image-canonical-embedded:" + k, "doc_hex": d.hex()[:2000], "events": ev[:1500], "c": b[:1500], "model": o,
+                                      "what": "no clause of evs_canon (every embedded tree accepted) is violated but the C's tree does not satisfy root_canon"})
+        if k_none == 0:
+            src["evs_canon"] += 1
+            src["canon_by_kind"][kk] = src["canon_by_kind"].get(kk, 0) + 1
+            if not canon_of.get(b, False):
+                disagreements.append({"kind": "image-canonical:" + k, "doc_hex": d.hex()[:2000], "events": ev[:1500], "c": b[:1500], "model": o,
+                                      "what": "no clause of evs_canon is violated but the C's tree does not satisfy root_canon"})
+        else:
+            cl = str(k_none)
+            src["excluded_by_clause"][cl] = src["excluded_by_clause"].get(cl, 0) + 1
+            src["excluded_by_kind"].setdefault(kk, {})
+            src["excluded_by_kind"][kk][cl] = src["excluded_by_kind"][kk].get(cl, 0) + 1
+            if len(src["excluded_documents"]) < 60 and (kk in ("corpus",) or src["excluded_by_kind"][kk][cl] <= 2):
+                src["excluded_documents"].append({"kind": k, "clause": k_none, "clause_embedded_accepted": k_all,
+                                                  "file": corpus_name.get(hashlib.sha256(d).digest(), ""), "doc": d[:120].decode("latin-1")})
+            if canon_of.get(b, False):
+                src["clause_fired_but_tree_canonical"] += 1
+    dist["source_documents"] = src
+    return {"evaluations": len(todo) + len(sources), "disagreements": disagreements, "samples": [{"tree": b[:200], "events": ev[:200]} for b, ev in todo[:6]],
             "distribution": dist}
 
 
